@@ -147,56 +147,89 @@ def _role_of(f, idx):
     return roles
 
 
-def rule_r3(ck, prog, rule='C19.R3'):
-    f = prog.function('sdk::metrics::ViewRegistry::MatchMeter')
-    rets = [n for n in f.nodes if n['k'] == 'return']
-    conj = []
-    def flat(i, op, out):
-        n = f.nodes[i]
-        if n['k'] == 'binop' and n['op'] == op:
-            flat(n['lhs'], op, out); flat(n['rhs'], op, out)
+def _match_table(ck, prog, rule, fname, site, spec, spec_text, role_fix=None):
+    """Decision table of a match predicate: every elementary test (a Predicate::Match call, an equality, an emptiness test) is an
+    atom classified by the field it concerns (selector side and descriptor side have to name the same field); all truth
+    assignments of the atoms are enumerated, the feasible paths walked, and the result compared with the documented formula."""
+    from ..symb import returns_under_pins, T, F
+    import itertools
+    f = prog.function(fname)
+    g = Graph(prog, f, inline=None, sync_lambdas=False)
+    atoms = {}      # atom key -> [(node idx, inverted)]
+    bad = None
+    for n in f.nodes:
+        key = None
+        inv = False
+        if n['k'] == 'call' and strip_targs(n.get('c', '')).rsplit('::', 1)[-1] == 'Match' and n.get('obj') is not None:
+            r = _role_of(f, n['i'])
+            if role_fix:
+                r = role_fix(r)
+            if len(r) != 1:
+                bad = (n, 'a filter is matched against another field (%s)' % sorted(r))
+                continue
+            key = sorted(r)[0] + ':match'
         else:
-            out.append(i)
-    flat(rets[0]['e'], '&&', conj)
-    ok = len(conj) == 3
-    why = 'three conjuncts expected'
-    if ok:
-        seen = []
-        for c in conj:
-            n = f.nodes[c]
-            if n['k'] == 'binop' and n['op'] == '||':
-                lr, rr = _role_of(f, n['lhs']), _role_of(f, n['rhs'])
-                lr, rr = lr - {'name'} if len(lr) > 1 else lr, rr
-                empt = comparison(f, n['lhs'])
-                is_empty = bool(empt) and empt[0] == '==' and strip_casts(f, empt[2]).get('v') == 0 or \
-                    any(f.nodes[i]['k'] == 'call' and strip_targs(f.nodes[i].get('c', '')).rsplit('::', 1)[-1] == 'empty' for i in f.subtree(n['lhs']))
-                common = (lr & rr) - {'name'}
-                if not is_empty or len(lr) != 1 or not (lr <= rr):
-                    ok = False
-                    why = 'a disjunction tests the emptiness of %s but compares %s: the two sides must concern the same field' % (sorted(lr), sorted(rr))
-                seen.append(sorted(lr)[0] if lr else '?')
-            else:
-                seen.append('name' if 'name' in _role_of(f, c) else '?')
-        if ok:
-            ok = sorted(seen) == ['name', 'schema', 'version']
-            why = 'the conjuncts cover %s, documented are name, version, schema' % seen
-    ck.verdict(ok, rule, f, 'match-meter', rets[0], 'name and (version empty or matches) and (schema empty or matches)' if ok else 'MatchMeter: %s' % why)
-    f = prog.function('sdk::metrics::ViewRegistry::MatchInstrument')
-    rets = [n for n in f.nodes if n['k'] == 'return']
-    conj = []
-    flat(rets[0]['e'], '&&', conj)
-    roles = []
-    ok = len(conj) == 3
-    for c in conj:
-        r = _role_of(f, c)
-        n = f.nodes[c]
-        # selector side and descriptor side must name the same role
-        roles.append(sorted(r))
-        if len(r) != 1:
-            ok = False
-    ok = ok and sorted(x[0] for x in roles) == ['name', 'type', 'unit']
-    ck.verdict(ok, rule, f, 'match-instrument', rets[0], 'name and unit and type, each against its own descriptor field' if ok else
-               'MatchInstrument does not compare name with name, unit with unit and type with type (found %s)' % roles)
+            c = comparison(f, n['i'])
+            if c and c[0] in ('==', '!='):
+                inv = c[0] == '!='
+                r = _role_of(f, n['i'])
+                if role_fix:
+                    r = role_fix(r)
+                zero = strip_casts(f, c[2]).get('v') == 0 or strip_casts(f, c[1]).get('v') == 0
+                if len(r) != 1:
+                    bad = (n, 'a comparison relates different fields (%s)' % sorted(r))
+                    continue
+                key = sorted(r)[0] + (':empty' if zero else ':equal')
+            elif n['k'] == 'call' and strip_targs(n.get('c', '')).rsplit('::', 1)[-1] == 'empty' and n.get('obj') is not None:
+                r = _role_of(f, n['obj']) if True else set()
+                if role_fix:
+                    r = role_fix(r)
+                if len(r) == 1:
+                    key = sorted(r)[0] + ':empty'
+        if key:
+            atoms.setdefault(key, []).append((n['i'], inv))
+    if bad:
+        ck.violation(rule, f, site, bad[0], '%s: %s' % (fname.rsplit('::', 1)[-1], bad[1]))
+        return
+    keys = sorted(atoms)
+    wrong = None
+    for vals in itertools.product((True, False), repeat=len(keys)):
+        asg = dict(zip(keys, vals))
+        pins = {}
+        for k, lst in atoms.items():
+            for (idx, inv) in lst:
+                pins[idx] = (T if (asg[k] != inv) else F)
+        got = returns_under_pins(g, pins)
+        want = spec(asg)
+        if want is None:
+            wrong = (asg, 'atoms %s do not cover the documented fields' % keys)
+            break
+        if got != {T if want else F}:
+            wrong = (asg, 'for %s the result is %s, documented is %s' % (', '.join('%s=%s' % (k, 'T' if v else 'F') for k, v in sorted(asg.items())), sorted(str(x) for x in got), want))
+            break
+    ck.verdict(wrong is None, rule, f, site, None, spec_text + ' (decision table over %d atoms, %d rows)' % (len(keys), 2 ** len(keys)) if wrong is None else
+               '%s is not %s: %s' % (fname.rsplit('::', 1)[-1], spec_text, wrong[1]))
+
+
+def rule_r3(ck, prog, rule='C19.R3'):
+    def meter_spec(a):
+        need = {'name:match', 'version:empty', 'version:match', 'schema:empty', 'schema:match'}
+        if set(a) != need:
+            return None
+        return a['name:match'] and (a['version:empty'] or a['version:match']) and (a['schema:empty'] or a['schema:match'])
+
+    def fix_meter(r):
+        # GetVersionFilter()->Match(scope.GetVersion()) mentions no name; GetNameFilter()->Match(scope.GetName()) only name
+        return r
+    _match_table(ck, prog, rule, 'sdk::metrics::ViewRegistry::MatchMeter', 'match-meter', meter_spec,
+                 'name and (version empty or matches) and (schema empty or matches)', fix_meter)
+
+    def instr_spec(a):
+        if set(a) != {'name:match', 'unit:match', 'type:equal'}:
+            return None
+        return a['name:match'] and a['unit:match'] and a['type:equal']
+    _match_table(ck, prog, rule, 'sdk::metrics::ViewRegistry::MatchInstrument', 'match-instrument', instr_spec,
+                 'name and unit and type, each against its own descriptor field')
     f = prog.function('sdk::metrics::ViewRegistry::FindViews')
     g = Graph(prog, f, inline=None, sync_lambdas=False)
     loops = [n for n in f.nodes if n['k'] == 'forrange' and access_path(f, n['range']) == ('this', 'registered_views_')]
